@@ -31,6 +31,7 @@ RULE = (
     "pending rows bucket, committed rows bucket, tables, kind of look, busy seen)."
 )
 ASSUMPTIONS = [
+    "type names starting with 'sqlite_' are not generated: SQLite reserves that prefix for internal objects and refuses to create such a table (the write raises, nothing is lost)",
     "schema evolution only gains fields and keeps one type per (table, column); record/field names that differ only by case are not generated (SQLite identifiers are case-insensitive)",
     "values: valid-Unicode text, integers within 64 bits, finite floats, bytes, timezone-aware timestamps; other field types are compared as their text form",
     "the crash snapshot is a byte copy of db + -journal taken between two API calls (process crash model), not an interrupted write(2) inside the engine",
@@ -38,9 +39,10 @@ ASSUMPTIONS = [
     "library connections are opened with timeout=0 (sqlite3 proxy) so that SQLITE_BUSY surfaces at once instead of after 5 real seconds",
 ]
 EXPECTED_PROBES = ["observer-look", "observer-saw-pending-hidden", "crash-snapshot", "snapshot-hot-journal", "busy-commit", "busy-released-retry-ok", "holder-is-sqlitereader",
-                   "schema-gained-column", "second-batch-size", "sql-keyword-name", "int64-boundary"]  # fmt: skip
+                   "schema-gained-column", "second-batch-size", "sql-keyword-name", "int64-boundary", "second-writer-session"]  # fmt: skip
 
-TABLE_NAMES = ["t/a", "select", "Mixed/Case_1", "x", "order/by", "group", "a/b/c", "table", "index/from"]
+TABLE_NAMES = ["t/a", "select", "Mixed/Case_1", "x", "order/by", "group", "a/b/c", "table", "index/from", "sqlite3/journal", "sqlitex/y_", "SQLiteWal/frame", "main/temp",
+               "a_b", "T1/t_2", "pragma", "rowid/oid", "u__v"]
 FIELD_TYPES = {
     "s": "string", "n": "varint", "f": "float", "b": "bytes", "t": "datetime", "p": "path", "ip": "net.ipaddress", "select": "string", "Order": "varint",
     "fs": "filesize", "from": "string", "group": "varint", "Key": "bytes", "flag": "boolean", "u": "uri", "w": "uint32", "class": "float", "values": "datetime",
@@ -49,7 +51,7 @@ SQL_KEYWORDS = {"select", "order/by", "group", "table", "index/from", "from", "O
 
 
 def budget(tier):
-    return 12000 if tier == "quick" else 300000
+    return 36000 if tier == "quick" else 1500000
 
 
 def wall_cap(tier):
@@ -126,6 +128,8 @@ def generate(rng, tier, index):
                 ops.append({"op": "snapshot"})
             elif r < 0.62:
                 ops.append({"op": "flush"})
+            elif r < 0.66 and not holding:
+                ops.append({"op": "reopen"})  # the export is continued by a new writer session on the same file
             elif mode == "hold" and r < 0.80:
                 if not holding:
                     ops.append({"op": "hold", "kind": holder_kind})
@@ -211,6 +215,15 @@ class Workload:
                 self.do_write(op)
             elif k == "flush":
                 self.call("flush", self.writer.flush, commits=True)
+            elif k == "reopen":
+                if self.holder is None and not self.busy:
+                    if self.call("close", self.writer.close, commits=True):
+                        self.writer = self.SQ.SqliteWriter(self.path, batch_size=self.batch)
+                        w.keep.append(self.writer)
+                        self.seen = set()
+                        self.count = 0
+                        w.probe("second-writer-session")
+                        w.log(self.tag, "reopen")
             elif k == "close":
                 self.do_close()
             elif not self.looks:
